@@ -83,6 +83,11 @@ func (p *Prog) panicSites(reach map[*ssa.Function]bool) []panicSite {
 					}
 				case *ssa.MapUpdate:
 					out = append(out, panicSite{"mapupdate", fn, in, x.Of(in.Map, in).String()})
+				case *ssa.MakeSlice:
+					// make([]T, n[, c]) panics when n < 0 or n > c
+					if _, isC := constInt(in.Len); !isC {
+						out = append(out, panicSite{"makeslice", fn, in, "make(" + x.Of(in.Len, in).String() + ")"})
+					}
 				}
 			}
 		}
@@ -130,7 +135,10 @@ type lenFact struct {
 // derived from their own slice bounds (E6 length facts): field -> width.
 func (p *Prog) parseFieldLens() map[string]int {
 	out := map[string]int{}
-	for _, spec := range []struct{ fn, prefix string }{{"types.*Message.Parse", "(*types.Message).Parse("}, {"types.*BurnMessage.Parse", "(*types.BurnMessage).Parse("}} {
+	for _, spec := range []struct {
+		fn, prefix string
+		total      int // exact input length enforced by the Parse contract (0: none)
+	}{{"types.*Message.Parse", "(*types.Message).Parse(", 0}, {"types.*BurnMessage.Parse", "(*types.BurnMessage).Parse(", 132}} {
 		fn := p.Func(spec.fn)
 		if fn == nil {
 			continue
@@ -142,6 +150,8 @@ func (p *Prog) parseFieldLens() map[string]int {
 				out[spec.prefix+"|"+f] = hi - lo
 			} else if n, _ := fmt.Sscanf(t, "p1[:%d]", &hi); n == 1 && strings.HasPrefix(t, "p1[:") {
 				out[spec.prefix+"|"+f] = hi
+			} else if n, _ := fmt.Sscanf(t, "p1[%d:]", &lo); n == 1 && t == fmt.Sprintf("p1[%d:]", lo) && spec.total > lo {
+				out[spec.prefix+"|"+f] = spec.total - lo
 			}
 		}
 	}
@@ -381,6 +391,20 @@ func (c *FC) proveSlice(s *ssa.Slice, plens map[string]int) (bool, string) {
 			if s.High != nil {
 				x, ok := constInt(s.High)
 				if !ok {
+					// make([]T, C-len(y), n) is `new [n]T; t[:C-len(y)]`: in range when len(y) <= C <= n
+					if bo, isSub := s.High.(*ssa.BinOp); isSub && bo.Op == token.SUB && s.Low == nil {
+						if k, ok := constInt(bo.X); ok && k <= n {
+							if call, ok := bo.Y.(*ssa.Call); ok {
+								if bi, ok := call.Call.Value.(*ssa.Builtin); ok && bi.Name() == "len" {
+									y := c.lenOf(call.Call.Args[0], s, plens)
+									if y.max >= 0 && y.max <= k {
+										return true, fmt.Sprintf("[:%d-len(y)] of an array of %d with len(y) <= %d (%s)", k, n, y.max, y.why)
+									}
+									return false, fmt.Sprintf("[:%d-len(y)] needs len(y) <= %d; known max %d", k, k, y.max)
+								}
+							}
+						}
+					}
 					return false, "non-constant bound on an array"
 				}
 				hi = x
